@@ -69,6 +69,16 @@ def run(ctx):
         and "returnself.ldm_maintenance.data_containers.search(data_request)" in src
     ctx.ob("C14.notify-data", sd.short(), "request-built-from-subscription", ok,
            "the search request is built from this subscription's types, filter, order and priority", sd.loc)
+    fsd = ctx.flows.get(sd)
+    for k_, s_, st_ in fsd.exits:
+        if k_ == "return":
+            u = norm(pretty(unparse(fsd.expand(s_.value, st_))))
+            okr = u.startswith("self.ldm_maintenance.data_containers.search(RequestDataObjectsReq(subscription.subscription_request.application_id,"
+                               "subscription.subscription_request.data_object_type,")
+            ctx.ob("C14.notify-data", sd.short(), f"return@{s_.lineno - sd.node.lineno}", okr,
+                   "every result handed to a notification comes from the back-end search for this subscription's types and filter" if okr else
+                   f"a subscription result is produced by `{u[:90]}`: it bypasses the type / filter selection of this subscription",
+                   f"{sd.module.rel}:{s_.lineno}")
     # process_notifications: interval test, stamp advanced exactly when notifying, callback outside the lock
     fl2 = ctx.flows.get(pn)
     cbs = [x for x in P.calls_in(pn) if (dotted(x.func) or "").endswith(".callback")]
@@ -81,7 +91,7 @@ def run(ctx):
     ctx.ob("C14.notify-guards", pn.short(), "interval", interval,
            "callback only when last_notified + notify_time <= now" if interval else "the interval test no longer guards the callback",
            f"{pn.module.rel}:{cb.lineno}")
-    stamped = "self.last_checked_subscriptions_time[]" in stc.defs
+    stamped = any(f.kind == "call" and norm(pretty(f.key)) == "__setitem__(self.last_checked_subscriptions_time,subscription)" for f in stc.facts)
     ctx.ob("C14.bookkeeping", pn.short(), "stamp-when-notifying", stamped,
            "the last-notified time is advanced on the path that invokes the callback", f"{pn.module.rel}:{cb.lineno}")
     # no stamp on the skipping path (other than the initial one)
